@@ -419,6 +419,41 @@ def check_der(case):
     return Outcome(True, ("accepted" if got else "refused", kind if kind in ("canonical", "raw") else "mutated"))
 
 
+# ---------------------------------------------------------------- the DER writer, on every curve and every length of r and s
+@st.composite
+def der_writer_case(draw):
+    name = draw(st.sampled_from(sorted(CURVES)))
+    size = CURVES[name].n_size
+    # the octet lengths of the two integers are drawn (a signature's are almost always full size): every total from a few octets up to the largest the curve
+    # gives, so that the sequence length crosses 127 / 128 on the curves where it can
+    lr, ls = draw(st.integers(1, size)), draw(st.integers(1, size))
+    if size >= 62 and draw(st.booleans()):
+        total = draw(st.sampled_from([121, 122, 123, 124, 125, 126]))  # two integers whose encodings (value + tag and length) make a body of 125 .. 130 octets
+        lr = draw(st.integers(max(1, total - size - 1), min(size, total - 1)))
+        ls = max(1, min(size, total - lr))
+    return {"curve": name, "lr": lr, "ls": ls, "top_r": draw(st.booleans()), "top_s": draw(st.booleans()), "fill": draw(st.integers(0, 2**32))}
+
+
+def check_der_writer(case):
+    ec = CURVES[case["curve"]]
+
+    def scalar(length, top, salt):
+        raw = bytearray(hashlib.shake_256(f"{case['fill']}:{salt}".encode()).digest(length))
+        raw[0] = (raw[0] | 0x80) if top else ((raw[0] & 0x7F) or 1)  # with the top bit set the encoding gets a 00 in front: one octet longer
+        return int.from_bytes(raw, "big")
+
+    r, s = scalar(case["lr"], case["top_r"], "r"), scalar(case["ls"], case["top_s"], "s")
+    want = eref.der_encode(r, s)
+    try:
+        got = dsa.Sig(r, s, ec, check_validity=False).serialize(check_validity=False)
+    except (BTClibValueError, BTClibTypeError):
+        return Outcome(False, (case["curve"], "unchecked-sig-refused"))  # a class that validates even when told not to: nothing written, nothing to judge
+    body = len(want) - (2 if len(want) < 130 else 3)
+    if got != want:
+        raise Violation(f"der_writer:not-DER:body={'<128' if body < 128 else '=128' if body == 128 else '>128'}", f"{case['curve']} r={r:x} s={s:x} lib={got.hex()[:24]}... ref={want.hex()[:24]}...")
+    return Outcome(True, (f"body={'<=126' if body <= 126 else body if body <= 129 else '>=130'}",))
+
+
 # ---------------------------------------------------------------- crack
 @st.composite
 def crack_case(draw):
@@ -463,6 +498,8 @@ SUBCHECKS = [
     SubCheck("catalogue", check_catalogue, "sign_/sign/sign_recoverable_/Signer vs RFC 6979 + SEC 1 model, grinding, recovery; non-trivial: every case that produced a signature", lambda: catalogue_case(), quick=700, thorough=8000),
     SubCheck("catalogue_all", check_catalogue, "same over all 27 curves", lambda: catalogue_case(sorted(CURVES)), quick=250, thorough=6000),
     SubCheck("soundness_mutations", check_mutation, "one field of a valid (msg,Q,r,s) edited; verdict must equal SEC 1 (so (r,n-s) stays valid); non-trivial: all", mutation_case, quick=1500, thorough=20000),
+    SubCheck("der_writer", check_der_writer, "Sig(r, s, curve).serialize() == strict DER of (r, s) by the model, on every catalogue curve, for integers of every octet length (with and without the leading 00) -- bodies of 125..130 octets "
+             "forced on the 512- and 521-bit curves, where the length of the sequence changes form; non-trivial: bytes written", der_writer_case, quick=4000, thorough=60000),
     SubCheck("der", check_der, "canonical DER of boundary-size (r,s), up to 2 stacked structural mutations, or raw bytes; accepted => re-serializes identically and BIP66 accepts; BIP66-canonical with valid r,s => accepted", der_case, quick=12000, thorough=200000),
     SubCheck("crack", check_crack, "two signatures sharing a nonce give back the key", crack_case, quick=400, thorough=4000),
 ]
